@@ -25,14 +25,28 @@ def gen_cases(tier, seed, judge=('C07',), n=None, queries=False, longpark_in_qui
                       'longpark': (0.25 if i % 5 == 3 else None) if tier == 'thorough' or longpark_in_quick else None})
     if 'C07' in judge or 'C10' in judge:
         # the mempool refresh lags behind the block processor (slow raw-tx fetches) while blocks touch subscribed scripts
-        for j in range(20 if tier == 'quick' else 300):
+        for j in range(32 if tier == 'quick' else 400):
             nclients, nscripts = 2, rng.randrange(4, 8)
             cases.append({'seed': rng.randrange(1 << 30), 'nclients': nclients, 'nscripts': nscripts, 'judge': list(judge),
                           'script': gen_lag_script(rng, nclients, nscripts), 'flushkind': 'none', 'flushvec': None,
                           'policy': rng.choice(('random', 'lazy', 'eager')), 'p': 0.3, 'latency': None,
-                          'latency_by_method': {'getrawtransaction': (7, 9, 14), 'getrawmempool': (0, 3)}, 'txindex': j % 2 == 0,
+                          'latency_by_method': ({'getrawtransaction': (7, 9, 14), 'getrawmempool': (0, 3)} if j % 2 else
+                                                {'getrawtransaction': (7, 9, 14), 'getrawmempool': (0, 3), 'rest/block': (4, 8),
+                                                 'getblockhash': (2, 5)}), 'txindex': j % 4 < 2,
                           'prefetch': 100, 'n0': rng.choice((10, 16)), 'colls': 0, 'reorg_limit': 5})
     if 'C07' in judge or 'C10' in judge:
+        # a forced reorg processed while a slow refresh (started before it) is still fetching: its hand-over falls into the
+        # window in which the blocks are undone but not yet re-advanced
+        for j in range(12 if tier == 'quick' else 150):
+            nclients, nscripts = 2, 5
+            script = [('hsub', ci) for ci in range(nclients)] + [('sub', ci, si) for ci in range(nclients) for si in range(nscripts)]
+            script += [('sleep', 12)]
+            for _ in range(rng.randrange(1, 3)):
+                script += [('w', 'add'), ('sleep', rng.choice((5.5, 6, 7, 8))), ('rpc_reorg', rng.randrange(1, 3)), ('sleep', 45)]
+            cases.append({'seed': rng.randrange(1 << 30), 'nclients': nclients, 'nscripts': nscripts, 'judge': list(judge), 'script': script,
+                          'flushkind': 'none', 'flushvec': None, 'policy': rng.choice(('eager', 'lazy', 'random')), 'p': 0.3, 'latency': None,
+                          'latency_by_method': {'getrawtransaction': (11, 14, 17), 'getblockhash': (4, 5, 7), 'getrawmempool': (0,)},
+                          'txindex': j % 2 == 0, 'prefetch': 100, 'n0': rng.choice((10, 14)), 'colls': 0, 'reorg_limit': 5})
         for j in range(12 if tier == 'quick' else 150):
             nclients, nscripts = 2, 8
             cases.append({'seed': rng.randrange(1 << 30), 'nclients': nclients, 'nscripts': nscripts, 'judge': list(judge),
@@ -60,7 +74,7 @@ def run(tier, seed, replay=None):
     c = rep.counters
     for name, minimum in {'quiescent_points_judged': 80, 'held_statuses_judged': 400, 'held_tips_judged': 150, 'header_notifications_seen': 300,
                           'notifications_issued': 500, 'step:reorg': 20, 'step:reorg_same_height': 10, 'step:forced_reorg': 15,
-                          'client:unsubscribe': 20, 'c20_joins_on_real_traces': 300, 'notif_handovers_checked_against_env_model': 1000}.items():
+                          'client:unsubscribe': 20, 'c20_joins_on_real_traces': 300, 'notifications_issued_while_index_below_their_height': 3, 'notif_handovers_checked_against_env_model': 1000}.items():
         rep.floor(name, c[name], minimum)
     if c['notif_handover_outside_env_model']:
         rep.inconc(f'{c["notif_handover_outside_env_model"]} real hand-over(s) fall outside the environment model used by C20 (model too narrow)')
